@@ -1,13 +1,13 @@
 import json, os, shutil, subprocess
 
 SPEC = {
-    "lean_modules": ["SemaModel.C01.Props", "SemaModel.C01.Tie"],
+    "lean_modules": ["SemaModel.C01.Props", "SemaModel.C01.Tie", "SemaModel.C01.Accept"],
     "lean_dirs": ["SemaModel/C01"],
     "harness": "c01",
     "harness_args": {"quick": ["-hist", 500, "-batches", 10], "thorough": ["-hist", 4000, "-batches", 14, "-thorough"]},
     "timeout": {"quick": 900, "thorough": 3000},
     "level": "proof",
-    "tie": "T3: random histories of insert/update/delete batches on a real shard (bbolt file and memory backend, index schemas none / string+integer+float+stringArray+nested string / text+string / flat vector+integer / vamana vector+string) are replayed line by line on the Lean model; compared after every batch: the batch result, the full points and internal buckets in the model's symbolic keys (through Shard.VerifDB), the select-all read of the whole id pool, Info().PointCount and two reads by id (answered by the Lean *spec*). The oracles of the model (free-id order, delete iteration order) are read back from the implementation. T2: tools/facts_c01 pins DELETEVALUE, the start value of the id counter, the bodies of IdCounter.NextId / FreeId and that count and counter are written after the pipeline's error check. T1: IdCounter.NextId / FreeId / MaxId are translated from shard/idcounter.go on every run (Generated/IdCounter.lean) and C01_tie_nextId / C01_tie_freeId prove that the model's Ctr.nextId / Ctr.freeId compute the same (ids as toNat; no wrap of nextFreeId++); changePointCount is translated with the bucket as Base/KV.lean (Generated/PointCount.lean) and C01_tie_count_add / C01_tie_count_sub prove the model's count arithmetic (countV + n; reject when countV < k, else countV - k).",
+    "tie": "T3: random histories of insert/update/delete batches (accepted and REJECTED: a batch the reference model rejects inside the transaction runs in a child process on a copy of the db file) on a real shard (bbolt file and memory backend, index schemas none / string+integer+float+stringArray+nested string / text+string / flat vector+integer / vamana vector+string) are replayed line by line on the Lean model; compared after every batch: the batch result and, beside it, the real verdict against the independent acceptance predicate `StoreAcceptable` evaluated in Lean on the reference map (`acc=`), the full points and internal buckets in the model's symbolic keys (through Shard.VerifDB), the select-all read of the whole id pool, Info().PointCount and two reads by id (answered by the Lean *spec*). The oracles of the model (free-id order, delete iteration order) are read back from the implementation. T2: tools/facts_c01 pins DELETEVALUE, the start value of the id counter, the bodies of IdCounter.NextId / FreeId and that count and counter are written after the pipeline's error check. T1: IdCounter.NextId / FreeId / MaxId are translated from shard/idcounter.go on every run (Generated/IdCounter.lean) and C01_tie_nextId / C01_tie_freeId prove that the model's Ctr.nextId / Ctr.freeId compute the same (ids as toNat; no wrap of nextFreeId++); changePointCount is translated with the bucket as Base/KV.lean (Generated/PointCount.lean) and C01_tie_count_add / C01_tie_count_sub prove the model's count arithmetic (countV + n; reject when countV < k, else countV - k).",
     "required_theorems": [
         "Sema.C01.C01_step", "Sema.C01.C01_run", "Sema.C01.C01_history",
         "Sema.C01.C01_read", "Sema.C01.C01_read_all",
@@ -16,13 +16,18 @@ SPEC = {
         "Sema.C01.C01_setPoint_delete_noop",
         "Sema.C01.C01_tie_nextId", "Sema.C01.C01_tie_freeId", "Sema.C01.C01_tie_maxId",
         "Sema.C01.C01_tie_count_add", "Sema.C01.C01_tie_count_sub",
+        # acceptance characterised independently (SemaModel/C01/Accept.lean, notes/Accept.md): WHICH batches the point store
+        # takes is a predicate on the reference map (`StoreAcceptable`: ids distinct and not stored / every written
+        # document fits, in closed form `mergedAt` — no update loop), proved equivalent to the model's verdict
+        "Sema.C01.C01_coll_accept_iff", "Sema.C01.C01_accept_iff", "Sema.C01.C01_update_stores",
+        "Sema.C01.C01_step_written", "Sema.C01.C01_rejects_all_refuted",
     ],
     "trusted_base": [
         "SemaModel/C01/Model.lean is a hand transcription of Shard.InsertPoints/UpdatePoints/DeletePoints, pointstore.SetPoint/DeletePoint/GetPointByUUID/GetPointByNodeId, IdCounter, changePointCount and the _id branch of SearchPoints; tied to the code by the correspondence only (plus the facts of tools/facts_c01)",
         "msgpack is the identity on documents; a field value is opaque text (the model only tests equality with the string \"_delete\"); the msgpack length of a merged document is supplied by the harness (Cfg.size is abstract in the theorems)",
         "bbolt's write transaction is all-or-nothing (every error path of the model returns the unchanged state); the memory backend has no rollback and is only driven with batches that are not rejected inside the transaction",
         "bucket keys are symbolic (n<id>i, n<id>d, p<uuid>i); their byte encodings and injectivity are C19's theorems",
-        "index effects are outside C01: whether the indexes accept a batch is the oracle bit indexOk, computed by the harness from the schema (type conformance of indexed fields) and compared with the real outcome",
+        "index effects are outside C01: whether the indexes accept a batch is the oracle bit indexOk, computed by the harness from the schema (type conformance of indexed fields) and compared with the real outcome; the bit is CHARACTERISED in the composition (Sema.Compose.Accept_iff, registered under C02: the model's computed verdict is equivalent to `Acceptable`, a predicate on the reference map and the documents). The oracle-free part of acceptance (repeated id, stored id, merged size, zero-length data) is characterised here: C01_accept_iff, with `StoreAcceptable` evaluated by the driver beside every batch result (`acc=`) and compared with the real verdict, rejected batches included (they run in child processes)",
         "go/cmd/c01: the Go transcription of the spec used as property oracle, the canonical text of documents, the classification of error messages",
     ],
     "assumptions": [
@@ -30,6 +35,7 @@ SPEC = {
         "Point.Data is the msgpack encoding of a map; zero-length Data is modelled (stored as 'no document', an update of such a point fails as a whole) but lies outside the property text and is not judged by the property oracle",
         "when a batch has both a store-level and an index-level reason to fail, the reported reason may be either (goroutine order); the canonical answer is the store-level one",
         "uint64 node ids and counts do not overflow",
+        "`Coll.updateLoop` (the reference map's update) and the model's `updateLoop` have the same recursive shape; what an update STORES and WHEN it is accepted are therefore also stated without the loop (C01_update_stores: every stored document with all patches of the batch for its id merged in, in order; C01_accept_iff / StoreAcceptable: `mergedAt`, closed form) and proved equal to the loop's result",
     ],
 }
 
